@@ -10,8 +10,9 @@ package keygen
 //@   ensures[C20] result1 != nil ==> result0 == nil
 //@   ensures[C20] result1 == nil ==> (result0 != nil && ((old(secretShare) == nil) == (old(public) == nil)))
 
-// ---- derivation (C14): a new configuration; the parent is left untouched; share + adjust, public + adjust*G,
-// the given (or inherited) 32-byte chain key -- so that derivation can be repeated on the result.
+// ---- derivation (C14): a new configuration; the parent is left untouched; public + adjust*G; the shares are additive,
+// so exactly one of them absorbs the adjustment: receiver share + adjust, sender share unchanged (composition lemma
+// /verif/lemmas/c14_additive_tweak.smt2); the given (or inherited) 32-byte chain key, so that derivation can be repeated.
 //@ func (*ConfigReceiver).Derive
 //@   nopanic[C05,C14]
 //@   requires c != nil && c.SecretShare != nil && c.Public != nil && adjust != nil
@@ -30,7 +31,7 @@ package keygen
 //@   allocates
 //@   ensures[C14] result1 != nil ==> result0 == nil
 //@   ensures[C14] result1 == nil ==> (result0 != nil && fresh(result0) && fresh(result0.SecretShare) && result0.Setup == c.Setup)
-//@   ensures[C14] result1 == nil ==> scval(result0.SecretShare) == s_add(old(scval(c.SecretShare)), old(scval(adjust)))
+//@   ensures[C14] result1 == nil ==> scval(result0.SecretShare) == old(scval(c.SecretShare))
 //@   ensures[C14] scval(c.SecretShare) == old(scval(c.SecretShare)) && scval(adjust) == old(scval(adjust))
 //@   ensures[C14] result1 == nil ==> ptval(result0.Public) == p_add(old(ptval(c.Public)), act(old(scval(adjust)), gen()))
 //@   ensures[C14] result1 == nil ==> (len(result0.ChainKey) == 32 && result0.ChainKey == ite(len(newChainKey) <= 0, c.ChainKey, newChainKey))
